@@ -34,6 +34,11 @@ CHECKS = {
   text="Reference-model monitor: inheritance chains of length 1-5 whose templates declare subsets of defs, named blocks (optionally calling parent.<block>()), anonymous blocks, module attributes and <%page args>, with bodies that call self/next/parent/local members, read .attr attributes and chain through next.body(**args), with static or dynamic <%inherit>, are rendered by Mako and by a 40-line reference resolution; every member prints <name>@<template> so the output spells the dispatch. All declared/not-declared assignments of one def, one block and one attribute over chains of length <=3 are enumerated with a probing body that calls every namespace x member; longer chains are random. Invalid block placements (duplicates, named block in def / in <%call>) must raise CompileException at construction.",
   note="Trusted: the reference resolution in checks/c06.py. Missing members are compared by exception class only.",
   technique="reference-model differential oracle over enumerated and random inheritance chains"),
+ "C07": dict(
+  category="exploration", design_ref="DESIGN.md §2 C07",
+  text="Reference-model monitor: generated sets of 2-8 templates in directory trees (backed by real files in one or two roots, or by put_string) are connected by <%include> (with/without args), <%namespace> (tag()/body(), inline defs, import=, inheritable reached through self from a derived template, module=), <%inherit> and the Namespace API, spelled as relative (plain, ./, ../, sub/) or absolute URIs, a few unresolvable; every template prints a tag naming its own file, the context value and <%page> argument it sees, whether `parent` is in its context and what self.tag() is, so the output states which file was reached with which context; expected output comes from a reference that resolves URIs with posixpath against the URI of the template the reference is written in.",
+  note="Trusted: the reference in checks/c07.py. Not asserted: whether using a def of a template already evaluates that template's other (unresolvable) namespace declarations; dot segments with put_string keys. One open known finding (included template that inherits does not get context-supplied <%page> arguments).",
+  technique="reference-model differential oracle over generated template sets with by-construction file tags"),
  "C09": dict(
   category="exploration", design_ref="DESIGN.md §2 C09",
   text="Every URI of the stated segment/separator/leading alphabet (exhaustive up to 4 segments quick, 6 thorough) is looked up on real TemplateLookup objects over a fixture tree with canary files at every place a traversal could land, directly and through include/inherit/namespace/Namespace-API calls from callers at depth 0..3; a sys.addaudithook file-access monitor, the realpath of every returned Template.filename and a canary scan of the output decide containment.",
